@@ -749,6 +749,16 @@ OpResult Hist::run_op(const HOp& op0) {
       // the client edits a string in place through its handle and hands the same block back with the new length
       std::vector<int> c; for (size_t i = 0; i < pool.size(); i++) { const HNode& n = nodes[pool[i]]; if ((n.kind == MK_BSTR || n.kind == MK_TSTR) && n.definite && n.impl && n.impl->data) c.push_back((int)i); }
       if (c.empty()) break; int x = pool[c[op.a % c.size()]]; HNode& n = nodes[x];
+      if ((op.d & 2) && !n.bytes.empty()) {
+        // "Modifying the data is allowed" (strings.h, bytestrings.h): the client rewrites the payload in place through the handle and does
+        // NOT tell the library - whatever the item cached about the old bytes (a code-point count, say) is now stale, and stays the client's problem
+        std::vector<uint8_t> nb; gen_payload(op.b, n.bytes.size(), n.kind == MK_BSTR ? 0 : (int)(1 + op.c % 3), nb);
+        OpScope S(*this, op, "C04,C13"); S.begin(op);
+        unsigned char* hh = n.kind == MK_BSTR ? cbor_bytestring_handle(n.impl) : cbor_string_handle(n.impl);
+        if (hh) memcpy(hh, nb.data(), nb.size());
+        S.end(); R.executed = true; if (hh) n.bytes = nb; S.account(); stat_add("payload_edits_in_place");
+        break;
+      }
       size_t nl = (size_t)(op.c % (n.bytes.size() + 1));
       OpScope S(*this, op, "C04,C13"); S.begin(op);
       unsigned char* h = n.impl->data;
